@@ -444,6 +444,35 @@ class Fold(ast.NodeTransformer):
             else:
                 elts = list(d.keys if f.attr == 'keys' else d.values)
             return self.hit(ast.Tuple(elts=elts, ctx=ast.Load()), node)
+        # 'a {} b {}'.format(x, y)  ->  f'a {x} b {y}'      (plain fields only)
+        if isinstance(f, ast.Attribute) and f.attr == 'format' and isinstance(f.value, ast.Constant) and isinstance(f.value.value, str) and simple:
+            import string
+            vals, auto, okf = [], 0, True
+            kwmap = {k.arg: k.value for k in node.keywords}
+            try:
+                fields = list(string.Formatter().parse(f.value.value))
+            except ValueError:
+                fields, okf = [], False
+            for lit, field, spec, conv in fields:
+                if lit:
+                    vals.append(ast.Constant(value=lit))
+                if field is None:
+                    continue
+                if spec or conv:
+                    okf = False
+                    break
+                if field == '' and auto < len(node.args):
+                    vals.append(ast.FormattedValue(value=node.args[auto], conversion=-1, format_spec=None))
+                    auto += 1
+                elif field.isdigit() and int(field) < len(node.args) and auto == 0:
+                    vals.append(ast.FormattedValue(value=copy.deepcopy(node.args[int(field)]), conversion=-1, format_spec=None))
+                elif field in kwmap:
+                    vals.append(ast.FormattedValue(value=copy.deepcopy(kwmap[field]), conversion=-1, format_spec=None))
+                else:
+                    okf = False
+                    break
+            if okf and all(_pure(a) for a in node.args) and all(_pure(k.value) for k in node.keywords):
+                return self.hit(ast.JoinedStr(values=vals), node)
         # beta reduction
         if isinstance(f, ast.Lambda) and simple:
             r = self._beta(f, node)
@@ -531,6 +560,22 @@ class Fold(ast.NodeTransformer):
             return self.hit(ast.Tuple(elts=[ast.Starred(value=node.left, ctx=ast.Load())] + node.right.elts, ctx=ast.Load()), node)
         if isinstance(node.op, ast.Add) and isinstance(node.left, ast.Constant) and isinstance(node.right, ast.Constant) and isinstance(node.left.value, str) and isinstance(node.right.value, str):
             return self.hit(ast.Constant(value=node.left.value + node.right.value), node)
+        # 'a %s b %s' % (x, y)  ->  f'a {x} b {y}'        (%s fields only; a tuple display on the right, or a single non-tuple expression for one field)
+        if isinstance(node.op, ast.Mod) and isinstance(node.left, ast.Constant) and isinstance(node.left.value, str):
+            import re as _re
+            tmpl = node.left.value
+            specs = _re.findall(r'%(?:\([^)]*\))?[#0\- +]*\*?\d*(?:\.\d+)?[a-zA-Z%]', tmpl)
+            if specs and all(x == '%s' for x in specs):
+                args_ = list(node.right.elts) if isinstance(node.right, ast.Tuple) else ([node.right] if len(specs) == 1 and isinstance(node.right, (ast.Name, ast.Attribute, ast.Constant, ast.Call, ast.Subscript, ast.BinOp)) else None)
+                if args_ is not None and len(args_) == len(specs) and not any(isinstance(a, ast.Starred) for a in args_) and all(_pure(a) or len(args_) == 1 for a in args_):
+                    pieces = tmpl.split('%s')
+                    vals = []
+                    for i_, pc in enumerate(pieces):
+                        if pc:
+                            vals.append(ast.Constant(value=pc))
+                        if i_ < len(args_):
+                            vals.append(ast.FormattedValue(value=args_[i_], conversion=-1, format_spec=None))
+                    return self.hit(ast.JoinedStr(values=vals), node)
         return node
 
     def visit_Compare(self, node):
